@@ -762,8 +762,10 @@ static int aaf_talker_recv_pdu(int fd_sk, int fd_timer)
     if (res < 0)
         return -1;
 
-    /* Arm the timer for the first time to start sending AAF stream. */
-    if (first_aaf_pdu) {
+    /* Arm the timer for the first time to start sending AAF stream. This
+     * needs a recovered timestamp, i.e. a valid CRF PDU.
+     */
+    if (first_aaf_pdu && !STAILQ_EMPTY(&mclk_timestamps)) {
         struct itimerspec itspec = { 0 };
         uint64_t ts = mclk_dequeue_ts();
 
